@@ -96,7 +96,9 @@ check("C14", "model_checking",
       "CostLen. Sequences of 1-4 batches through Algorithm.evaluate with both evaluators and whole NSGA-II / eps-MOEA runs with the "
       "worst-case evaluator are recorded; after EVERY batch ALL designs seen so far are validated by RobustTrace: lengths, neighbour "
       "displacement (axis, sign, tolerance), exact sum of |differences| on an integer lattice, feature and signed-cost slots, objective calls "
-      "per design unchanged for earlier designs, forward-difference gradient as an exact integer identity.",
+      "per design unchanged for earlier designs, forward-difference gradient as an exact integer identity. Whole NSGA-II / eps-MOEA / OMOPSO / "
+      "SMPSO runs, twin designs, pinned parameters, integer and numpy design vectors included. Side-car (not deciding): TLAPS proves the "
+      "cost-length law inductive for any number of batches (proofs/RobustLaws.tla).",
       "trusted: TLC; integer lattice objective (exact sums); call attribution by exact vectors with disjoint neighbourhoods",
       "TLC model with named deviation + TLC trace validation of every batch of real evaluator runs", "DESIGN.md 5/C14")
 
